@@ -292,7 +292,8 @@ struct ReplyWorld : World {
 		for (int i = 0; i < nops; ++i) {
 			Op op; unsigned k = (unsigned) r.below(16);
 			op.kind = k < 4 ? OP_REQ : k < 7 ? OP_DELIVER : k < 11 ? OP_SERVE : k < 13 ? OP_FLUSH : k < 15 ? OP_DREPLY2 : OP_SYNC;
-			if (syncm && (k == 10 || k == 14)) op.kind = OP_SYNC;     // the requester takes its replies mostly through sync
+			if (syncm && (k == 10 || k == 14)) op.kind = OP_SYNC;
+			if (op.kind == OP_SYNC) op.c = r.below(20000);     // the requester takes its replies mostly through sync
 			// a: random bits, b: side | behaviour << 8 | await << 16, c: size / count
 			op.a = (int64_t) r.next(); op.b = r.below(2) | (r.below(7) << 8) | ((r.chance(1, 6) ? 0 : 1) << 16); op.c = r.chance(1, 3) ? 1 : r.chance(1, 2) ? 1000000 : r.range(1, 40);
 			if (iof && op.kind == OP_FLUSH && r.chance(1, 2)) { op.fault = r.chance(1, 2) ? FL_SHORT : FL_EAGAIN; op.fa = r.range(1, 5); }
@@ -476,9 +477,15 @@ struct ReplyWorld : World {
 			}
 			case OP_SYNC: {
 				if (!use_sync) break;
-				int r; { Sut s; SUT_GUARD_ABORT(r = mpt_stream_sync(P.srm, idlen, &P.con->_wait, 0)); }
+				// wait at most `timeout` simulated milliseconds for replies: the call must come back within that time whatever is (not) on the wire
+				int timeout = (op.c % 3) == 0 ? 0 : (int) (op.c % 5000); int64_t t0 = simio::S.now_ms; uint64_t forever0 = simio::S.poll_block_forever;
+				int r; { Sut s; SUT_GUARD_ABORT(r = mpt_stream_sync(P.srm, idlen, &P.con->_wait, timeout)); }
 				check_pending();
-				log.ev("SYNC %s -> %d", P.name, r); outcome = r >= 0; st.hit("probe:sync");
+				int64_t waited = simio::S.now_ms - t0;
+				log.ev("SYNC %s timeout=%d -> %d after %lld ms", P.name, timeout, r, (long long) waited); outcome = r >= 0; st.hit("probe:sync");
+				if (waited > timeout) fail("overslept", "sync with a timeout of %d ms waited %lld ms", timeout, (long long) waited);
+				if (simio::S.poll_block_forever != forever0) fail("blocks-forever", "sync with a timeout of %d ms polled without timeout while nothing can arrive", timeout);
+				if (waited) st.hit("probe:sync_timed_out");
 				break;
 			}
 			}
@@ -507,6 +514,7 @@ struct ReplyWorld : World {
 		for (int s = 0; s < 2; ++s) { Sut su; mpt_connection_fini(C.peer[s].con); free(C.peer[s].con); }
 		check_pending();
 		CCp = 0;
+		st.hit("sim:ms", (uint64_t) simio::S.now_ms);
 		if (ledger_live()) fail("leak", "%zu block(s) allocated after both connections were finished: %s", ledger_live(), ledger_describe().c_str());
 	}
 
@@ -518,6 +526,7 @@ struct ReplyWorld : World {
 		for (int i = 0; i < nops; ++i) {
 			Op op; unsigned k = (unsigned) r.below(16);
 			op.kind = k < 4 ? OP_REQ : k < 8 ? OP_DELIVER : k < 12 ? OP_SERVE : k < 14 ? OP_DREPLY2 : k < 15 ? OP_SYNC : OP_FLUSH;
+			if (op.kind == OP_SYNC) op.c = r.below(20000);
 			if (k == 15 && r.chance(1, 4)) op.kind = OP_REASSIGN;    // the connection is moved to another socket while answers may still be owed
 			op.a = (int64_t) r.next(); op.b = r.below(2) | (r.below(7) << 8) | ((r.chance(1, 6) ? 0 : 1) << 16); op.c = r.chance(1, 2) ? 0 : r.range(0, 5);
 			if (net && op.kind == OP_DELIVER && r.chance(1, 3)) { op.fault = r.chance(1, 2) ? FL_DROP : FL_DUP; }
@@ -690,9 +699,14 @@ struct ReplyWorld : World {
 				break;
 			}
 			case OP_SYNC: {
-				int r; { Sut s; SUT_GUARD_ABORT(r = P.out->sync(0)); }
+				int timeout = (op.c % 3) == 0 ? 0 : (int) (op.c % 5000); int64_t t0 = simio::S.now_ms; uint64_t forever0 = simio::S.poll_block_forever;
+				int r; { Sut s; SUT_GUARD_ABORT(r = P.out->sync(timeout)); }
 				check_pending();
-				log.ev("SYNC %s -> %d", Q.name, r); outcome = r >= 0; st.hit("probe:sync");
+				int64_t waited = simio::S.now_ms - t0;
+				log.ev("SYNC %s timeout=%d -> %d after %lld ms", Q.name, timeout, r, (long long) waited); outcome = r >= 0; st.hit("probe:sync");
+				if (waited > timeout) fail("overslept", "sync with a timeout of %d ms waited %lld ms", timeout, (long long) waited);
+				if (simio::S.poll_block_forever != forever0) fail("blocks-forever", "sync with a timeout of %d ms polled without timeout while nothing can arrive", timeout);
+				if (waited) st.hit("probe:sync_timed_out");
 				audit_wire(side);
 				break;
 			}
@@ -724,6 +738,7 @@ struct ReplyWorld : World {
 		for (int s = 0; s < 2; ++s) { Sut su; D[s].in->unref(); }
 		check_pending();
 		CCp = 0;
+		st.hit("sim:ms", (uint64_t) simio::S.now_ms);
 		if (ledger_live()) fail("leak", "%zu block(s) allocated after both remote outputs were released: %s", ledger_live(), ledger_describe().c_str());
 	}
 
